@@ -383,6 +383,8 @@ def _run(ctx, arg, rec):
     if prop in EXTRA_PROFILES and shard % 4 == 3:
         # a quarter of the shards walks through the other network families (copies that cannot be bypassed, read/write offsets, table mixes, CPU/NPU mixes, reshapes)
         profile = EXTRA_PROFILES[prop][(shard // 4) % len(EXTRA_PROFILES[prop])]
+    if prop == "C10" and shard == 7:
+        profile = "cascade_short"
     if shard >= 100:
         # recurrent networks (UNIDIRECTIONAL_SEQUENCE_LSTM unrolled over time and batch: 16-bit element-wise arithmetic, hardware tanh/sigmoid, state tensors)
         profile = "rnn"
